@@ -22,11 +22,15 @@ Definition T : list sdesc := GenJsonTypes.structs.
 Definition cmd_ptags : list ptag := Eval vm_compute in parse_tags GenTags.cmd_tags.
 Definition filter_ptags : list ptag := Eval vm_compute in parse_tags GenTags.filter_tags.
 
-Definition g_build := build T cmd_id filter_id cmdcontrol_id cmd_ptags filter_ptags
-                            cmd_function_idx cmd_filter_idx filter_cmdcontrol_idx cc_delete_idx cc_partial_idx
-                            delete_arg_by_address.
-Definition g_recognise := recognise T cmd_id filter_id cmd_ptags filter_ptags
-                                    cmd_filter_idx filter_cmdcontrol_idx cc_delete_idx cc_partial_idx.
+(* parametrised by the tag tables and the delete-argument flag so that the pinned
+   spellings can be replayed in Coq (Properties/C18.v, refutation examples) *)
+Definition build_with (cpt fpt : list ptag) (by_addr : bool) :=
+  build T cmd_id filter_id cmdcontrol_id cpt fpt
+        cmd_function_idx cmd_filter_idx filter_cmdcontrol_idx cc_delete_idx cc_partial_idx by_addr.
+Definition recognise_with (cpt fpt : list ptag) :=
+  recognise T cmd_id filter_id cpt fpt cmd_filter_idx filter_cmdcontrol_idx cc_delete_idx cc_partial_idx.
+Definition g_build := build_with cmd_ptags filter_ptags delete_arg_by_address.
+Definition g_recognise := recognise_with cmd_ptags filter_ptags.
 Definition g_wire := over_the_wire T cmd_id.
 Definition cmd_ty : ty := TVal (KStruct cmd_id).
 
@@ -113,19 +117,20 @@ Definition obs_of_data (o : option cmd_data_t) : obs :=
 
 Definition opt_data (v : value) : option value := if is_nil v then None else Some v.
 
-Definition step_row (ft fn shape : N) (data sel el : value) : list obs :=
+Definition step_row_with (cpt fpt : list ptag) (by_addr : bool)
+           (ft fn shape : N) (data sel el : value) : list obs :=
   if negb (registered_b ft fn) then [OBadRow] else
   match fn_at fn with
   | None => [OBadRow]
   | Some f =>
       if negb (applicable f shape) then [ONotApplicable] else
-      match g_build f shape (opt_data data) sel el with
+      match build_with cpt fpt by_addr f shape (opt_data data) sel el with
       | Panic s => [OPanic s]
       | Ok cmd =>
           let j := enc T cmd_ty (VStruct cmd) in
           match dec T cmd_ty j with
           | Some (VStruct cmd') =>
-              match g_recognise cmd' with
+              match recognise_with cpt fpt cmd' with
               | Panic s => [OJson j; OPanic s]
               | Ok sn => [OJson j; obs_of_data (sn_data sn);
                           obs_of_filter 0 (sn_partial sn); obs_of_filter 1 (sn_delete sn)]
@@ -134,6 +139,8 @@ Definition step_row (ft fn shape : N) (data sel el : value) : list obs :=
           end
       end
   end.
+
+Definition step_row := step_row_with cmd_ptags filter_ptags delete_arg_by_address.
 
 Definition step (s : st) (o : op) : st * list obs :=
   match o with
